@@ -2,5 +2,6 @@ SPECIFICATION Spec
 CONSTANTS NEvents = 3
   Pauses = 3
   DispatchLock = TRUE
-INVARIANT Quiescent
+  ContinueLock = TRUE
+INVARIANTS Quiescent NoLostWakeup
 PROPERTIES NoStartWhilePaused EventuallyDone PauseReturns
